@@ -192,6 +192,22 @@ class ClientTask:
                 cl.abort()
                 cl.conn.sync()
                 continue
+            if kind == 'db_minimize':
+                # every connection's cache, also of connections that are
+                # in the middle of a transaction in another task
+                w.db.cacheMinimize()
+                continue
+            if kind == 'invalidate_cache':
+                # what a storage does that cannot tell what changed (the
+                # IStorageWrapper callback): every connection drops its
+                # whole cache at its next boundary
+                inv = getattr(w.db._mvcc_storage, 'invalidateCache', None)
+                if inv is not None:
+                    inv()
+                continue
+            if kind == 'cache_gc':
+                cl.conn.cacheGC()
+                continue
             self.txn_no += 1
             own = {}
             written = []
@@ -315,7 +331,9 @@ def gen_script(r, ncell, ntxn, write_p=0.5, rc_p=0.0, abort_p=0.08,
     for _ in range(ntxn):
         x = r.random()
         if x < misc_p:
-            out.append({'t': r.choice(('reopen', 'minimize', 'sync'))})
+            out.append({'t': r.choice(('reopen', 'minimize', 'sync', 'reopen',
+                                       'minimize', 'sync', 'db_minimize',
+                                       'invalidate_cache', 'cache_gc'))})
             continue
         steps = []
         for _ in range(r.randint(1, 4)):
